@@ -11,6 +11,7 @@ import (
 	"fmt"
 	"os"
 	"sort"
+	"sync/atomic"
 	"time"
 )
 
@@ -50,6 +51,8 @@ type Out struct {
 
 	spec    *Spec
 	start   time.Time
+	current string
+	beat    int64
 	seen    map[string]struct{}
 	vkeys   map[string]int
 	stopped bool
@@ -72,7 +75,39 @@ func Load() (*Spec, *Out) {
 		s.Workers = 1
 	}
 	o := &Out{Exhaustive: true, Extra: map[string]int64{}, spec: s, start: time.Now(), seen: map[string]struct{}{}, vkeys: map[string]int{}}
+	go o.watchdog()
 	return s, o
+}
+
+// Progress names the cell being explored (for the stuck-worker watchdog).
+func (o *Out) Progress(cell string) {
+	o.current = cell
+	atomic.AddInt64(&o.beat, 1)
+}
+
+// watchdog: a worker that makes no progress for StuckAfter of real time is stuck
+// in code the scheduler does not control (an un-instrumented spin or a real
+// block). That is not a verdict: the worker reports a harness error naming the
+// cell (driver exit 2) and the cell is classified by hand.
+var StuckAfter = 120 * time.Second
+
+func (o *Out) watchdog() {
+	last, lastAt := int64(-1), time.Now()
+	for {
+		time.Sleep(2 * time.Second)
+		b := atomic.LoadInt64(&o.beat)
+		if b != last {
+			last, lastAt = b, time.Now()
+			continue
+		}
+		if last > 0 && time.Since(lastAt) > StuckAfter {
+			msg := fmt.Sprintf("worker stuck for %v of real time in cell %q (code outside the scheduler's control spins or blocks); not a verdict", StuckAfter, o.current)
+			b, _ := json.Marshal(map[string]any{"harness_error": msg, "exhaustive": false})
+			_ = os.WriteFile(o.spec.Out, b, 0o644)
+			fmt.Fprintln(os.Stderr, msg)
+			os.Exit(3)
+		}
+	}
 }
 
 // Mine reports whether cell i belongs to this worker.
